@@ -209,17 +209,35 @@ fn attr<'a>(a: &'a [(String, String)], k: &str) -> Option<&'a str> {
     a.iter().find(|x| x.0 == k).map(|x| x.1.as_str())
 }
 
+/// the unsigned integers that occur in a label, in order
+fn nums(l: &str) -> Vec<i64> {
+    let mut out = vec![];
+    let mut cur = String::new();
+    for c in l.chars().chain(" ".chars()) {
+        if c.is_ascii_digit() {
+            cur.push(c);
+        } else if !cur.is_empty() {
+            out.push(cur.parse::<i64>().unwrap_or(-1));
+            cur.clear();
+        }
+    }
+    out
+}
+
+/// A parsed graph as the specification reads it. The relation is stated on what the picture
+/// SHOWS, not on a particular label format: a node shows the integers of its label (state, and
+/// token type if accepting), an edge the last integer of its label (the class id), a cluster the
+/// integers of its label and a polarity word.
 fn graph_json(g: &Graph) -> Result<Value, String> {
     let mut nodes = vec![];
     for (id, at) in &g.nodes {
-        nodes.push(json!({"id": id, "label": attr(at, "label").unwrap_or("")}));
+        let l = attr(at, "label").unwrap_or("");
+        nodes.push(json!({"id": id, "label": l, "nums": nums(l)}));
     }
     let mut edges = vec![];
     for (a, b, at) in &g.edges {
         let l = attr(at, "label").unwrap_or("");
-        // "<class text> (C#<id>)"
-        let cls = l.rfind("(C#").and_then(|k| l[k + 3..].strip_suffix(')')).and_then(|n| n.parse::<i64>().ok()).unwrap_or(-1);
-        edges.push(json!({"from": a, "to": b, "cls": cls}));
+        edges.push(json!({"from": a, "to": b, "cls": nums(l).last().cloned().unwrap_or(-1)}));
     }
     let mut clusters = vec![];
     for (name, c) in &g.clusters {
@@ -228,6 +246,9 @@ fn graph_json(g: &Graph) -> Result<Value, String> {
         }
         let mut cj = graph_json(c)?;
         cj["name"] = json!(name);
+        let l = c.label.clone().unwrap_or_default().to_lowercase();
+        cj["polarity"] = json!(if l.contains("neg") { "neg" } else if l.contains("pos") { "pos" } else { "?" });
+        cj["nums"] = json!(nums(&l));
         clusters.push(cj);
     }
     Ok(json!({"label": g.label.clone().unwrap_or_default(), "nodes": nodes, "edges": edges, "clusters": clusters}))
